@@ -7,6 +7,7 @@ import (
 
 	"github.com/free5gc/ike/security"
 	"github.com/free5gc/ike/security/encr"
+	"github.com/free5gc/ike/security/esn"
 	"github.com/free5gc/ike/security/integ"
 	"pgregory.net/rapid"
 
@@ -40,10 +41,22 @@ type c17In struct {
 	Ops   []c17Op         `json:"ops"`
 }
 
+// childViaProposal makes childSA obtain the Child SA descriptors from a proposal (NewChildSAKeyByProposal) instead of by
+// name, where the library supports that (it demands an integrity transform in the proposal).
+var childViaProposal = false
+
 func childSA(e, i int) *security.ChildSAKey {
 	c := &security.ChildSAKey{EncrKInfo: encr.StrToKType(ref.Encrs[e].Name)}
 	if i < 3 {
 		c.IntegKInfo = integ.StrToKType(ref.Integs[i].Name)
+	}
+	if childViaProposal && i < 3 {
+		c.EsnInfo, _ = esn.StrToType("ESN_DISABLE")
+		if p, err := c.ToProposal(); err == nil {
+			if c2, err := security.NewChildSAKeyByProposal(p); err == nil {
+				return c2
+			}
+		}
 	}
 	return c
 }
